@@ -110,3 +110,6 @@ Proof.
   intros Hw g'. unfold g', grid_rot_by. destruct (rot_kind_shape (grid_rot o) g Hw) as (Eh & Ew & Hw1).
   split; auto. rewrite !gheight_hN, !gwidth_wN, Eh, Ew. destruct o; cbn [grid_rot swaps]; auto.
 Qed.
+
+Lemma lookupH_get0 g p : wf_grid g -> in_grid g p = true -> lookupH g p = get0 g (Z.to_nat (fst p)) (Z.to_nat (snd p)).
+Proof. intros Hw Hin. unfold lookupH, gget, get0. rewrite Hin. reflexivity. Qed.
